@@ -218,5 +218,5 @@ def template_paths(ctx, drv, h_on, h_off, inputs):
 
 
 FINISH = dict(level="proof",
-              rule="exhaustive strings up to length 5 (quick) / 7 (thorough) over three entity-fragment alphabets, mutated and truncated entities at every distance from the end, random strings over all code units; 4 widths x flag on/off; non-trivial = contains a special character",
+              rule="exhaustive strings up to length 5 (quick) / 7 (thorough) over three entity-fragment alphabets, mutated and truncated entities at every distance from the end, random strings over all code units; 4 widths x flag on/off; round c: every print path also through copied tag arrays and in nested positions (loop / if / inline-if / svar sub-tags), wide strings on every path; non-trivial = contains a special character",
               checker_cmd="cd lean && lake build Qentem.Props.C03 && lake env lean <#print axioms of the 7 theorems>")
